@@ -11,4 +11,5 @@ CONSTANTS
 INVARIANT TypeOK
 INVARIANT Faithful
 INVARIANT FormsAgree
+PROPERTY IdsUntouched
 CHECK_DEADLOCK FALSE
